@@ -307,6 +307,70 @@ def gen_program(r):
   return Gen(r, r.choice([0, 1, 2, 2, 3])).program()
 
 
+# generic classes whose TypeVars have a bound or constraints, used UN-parameterised ("bare") in A's annotations: A's
+# analysis gives such a value the upper value of each TypeVar (the bound / the Union of the constraints) as parameter,
+# A's stub says only `-> BBox`, and B has to re-derive the same parameters from the TypeVar declarations in the stub
+# (convert.py: GenericType(cls, upper values)).  Own random stream (harness/props/c06.py), so the programs of
+# gen_program are unchanged.
+B_BOUNDS = [("Base0", ["Base0()", "Sub0()"]), ("Sub0", ["Sub0()"]), ("int", ["1"]), ("str", ["'s'"]),
+            ("list[int]", ["[1]"]), ("dict[str, Base0]", ["{'k': Base0()}"]), ("tuple[int, str]", ["(1, 's')"])]
+B_CONSTRAINTS = [("int, str", ["1", "'s'"]), ("bytes, Base0", ["b''", "Base0()"]), ("int, str, float", ["1.5", "2"]),
+                 ("list[int], str", ["[1]", "'s'"]), ("Base0, None", ["None", "Base0()"])]
+
+
+def gen_bounded_program(r):
+  tv = r.sample(["BT", "CT", "T", "S", "K", "V", "A1", "Z"], 3)
+  bnd, bvals = r.choice(B_BOUNDS)
+  con, cvals = r.choice(B_CONSTRAINTS)
+  out = ["from typing import Any, Callable, Generic, NamedTuple, Optional, TypeVar, Union\n",
+         "def _cond(): return bool(_cond)\n",
+         "class Base0:\n  tag = %s\n  def m(self) -> int:\n    return 1\n" % r.choice(["0", "''", "1.5"]),
+         "class Sub0(Base0):\n  pass\n",
+         "%s = TypeVar('%s', bound=%s)\n" % (tv[0], tv[0], bnd),
+         "%s = TypeVar('%s', %s)\n" % (tv[1], tv[1], con),
+         "%s = TypeVar('%s')\n" % (tv[2], tv[2])]
+  # BBox: one bounded parameter;  CBox: one constrained parameter;  PBox: bounded + unbounded (in random order)
+  out.append("class BBox(Generic[%s]):\n  def __init__(self, v: %s) -> None:\n    self.v = v\n"
+             "  def get(self) -> %s:\n    return self.v\n" % (tv[0], tv[0], tv[0]))
+  if r.random() < 0.7:
+    out.append("  @property\n  def pv(self) -> %s:\n    return self.v\n" % tv[0])
+  if r.random() < 0.5:
+    out.append("  def lst(self) -> list[%s]:\n    return [self.v]\n" % tv[0])
+  if r.random() < 0.4:
+    out.append("  def pair(self) -> tuple[%s, int]:\n    return (self.v, 0)\n" % tv[0])
+  out.append("class CBox(Generic[%s]):\n  def __init__(self, c: %s) -> None:\n    self.c = c\n"
+             "  def opt(self) -> Optional[%s]:\n    return self.c\n" % (tv[1], tv[1], tv[1]))
+  two = r.random() < 0.6
+  if two:
+    order = [tv[0], tv[2]] if r.random() < 0.5 else [tv[2], tv[0]]
+    out.append("class PBox(Generic[%s]):\n  def __init__(self, a: %s, b: %s) -> None:\n    self.a = a\n    self.b = b\n"
+               "  def first(self) -> %s:\n    return self.a\n  def second(self) -> %s:\n    return self.b\n"
+               % (", ".join(order), order[0], order[1], order[0], order[1]))
+    pargs = (bvals[0], "2j") if order[0] == tv[0] else ("2j", bvals[0])
+  out.append("class BHolder:\n  box: BBox\n  cbox: CBox\n  def __init__(self, b: BBox, c: CBox) -> None:\n"
+             "    self.box = b\n    self.cbox = c\n  def take(self) -> BBox:\n    return self.box\n")
+  uses = [("mkb", "BBox", "BBox(%s)" % r.choice(bvals)), ("mkc", "CBox", "CBox(%s)" % r.choice(cvals))]
+  extra = [("mkl", "list[BBox]", "[BBox(%s)]" % bvals[0]), ("mko", "Optional[BBox]", "None"),
+           ("mkt", "tuple[BBox, CBox]", "(BBox(%s), CBox(%s))" % (bvals[0], cvals[0])),
+           ("mkd", "dict[str, CBox]", "{'k': CBox(%s)}" % cvals[0]),
+           ("mku", "Union[BBox, int]", "0"), ("mkh", "BHolder", "BHolder(BBox(%s), CBox(%s))" % (bvals[0], cvals[0]))]
+  if two:
+    extra.append(("mkp", "PBox", "PBox(%s, %s)" % pargs))
+  uses += r.sample(extra, r.choice([2, 3, 4]))
+  for name, ann, val in uses:
+    out.append("def %s() -> %s:\n  return %s\n" % (name, ann, val))
+  if r.random() < 0.6:
+    out.append("def idb(b: BBox) -> BBox:\n  return b\n")
+  out.append("bg: BBox = mkb()\n")
+  out.append("cg: CBox = mkc()\n")
+  out.append("bh = BHolder(bg, cg)\n")
+  if r.random() < 0.5:
+    out.append("bl: list[BBox] = [bg]\n")
+  if two and r.random() < 0.7:
+    out.append("pg: PBox = PBox(%s, %s)\n" % pargs)
+  return "".join(out)
+
+
 # ---------------------------------------------------------------------------------------------
 # canonical, order-insensitive form of a pytd type (module prefix of A stripped)
 
